@@ -254,6 +254,13 @@ func genProgram(r *rand.Rand, o *progOpts) []Call {
 			case 3:
 				c = mkCall("Reset", -1000.3, -7, 2000.25, 1e6)
 			}
+			if r.Intn(6) == 0 {
+				// a viewBox that differs from the default in a single coordinate
+				v := [4]float32{-32, -32, 32, 32}
+				k := r.Intn(4)
+				v[k] += []float32{-16, 16, 0.5, 16}[k]
+				c = mkCall("Reset", v[0], v[1], v[2], v[3])
+			}
 			if r.Intn(5) == 0 {
 				// a viewBox less than one unit across (coordinates are quantised to 1/64 of a unit all the same)
 				c = [](Call){mkCall("Reset", 0, 0, 0.5, 0.75), mkCall("Reset", -0.25, -0.25, 0.25, 0.25), mkCall("Reset", 3, 3, 3.015625, 4)}[r.Intn(3)]
